@@ -18,13 +18,13 @@ Qed.
 
 (* T' is the document as the serializer of the sub-tree at sr names it: any document whose sub-tree at sr is the
    qualified view of t (what lies outside the sub-tree only enters through the fitting heuristics) *)
-Theorem wrap_real_transparent_ns pf decl ind align width T' sr t : ws_indent ind = true -> no_lf ind = true ->
+Theorem wrap_real_transparent_ns pf decl ind align width T' sr t : ws_indent ind = true ->
   (1 <= width)%Z -> plain_decl decl = true ->
   get T' sr = Some (qual_root pf decl t) -> reduced t -> is_text t = false ->
   reduce_model (wrap_seen ind align width T' sr) = qual_root pf decl t.
 Proof.
-  intros Hi Hn Hw Hd Hg Hr Ht.
-  apply (wrap_real_transparent ind align width T' sr (qual_root pf decl t) Hi Hn Hw Hg (reduced_qual_root pf decl t Hd Hr)).
+  intros Hi Hw Hd Hg Hr Ht.
+  apply (wrap_real_transparent ind align width T' sr (qual_root pf decl t) Hi Hw Hg (reduced_qual_root pf decl t Hd Hr)).
   rewrite qual_root_is_text. exact Ht.
 Qed.
 
